@@ -15,6 +15,3 @@ func (d *VerifDown) VerifC12SRTime() (uint64, uint64) { return d.T.getSRTime() }
 // connection (what addDownConn does), so that the first sender report of the
 // publisher is propagated by the real sendSR.
 func (u *VerifUp) VerifC12AddLocalConn(d *VerifDown) error { return u.T.conn.AddLocal(d.Conn) }
-
-// VerifC12RunNackWriter runs the real nackWriter synchronously.
-func (u *VerifUp) VerifC12RunNackWriter() { nackWriter(u.T) }
